@@ -1,4 +1,6 @@
 import Proofs.CrashRun
+import Proofs.CrashCache
+import Model.CacheTree
 import Spec.C01
 
 /-!
@@ -19,7 +21,10 @@ submission watermarks parse; `Live c n` ⊇ `Inv c n` — the production invaria
 blocks of `d` up to `d`'s height and a height between `d.height` and `d.height + 1`.
 
 The crash-recovery part of the property holds **in full** (`C04_recovers`: every history, every crash point, no
-exclusion).  The cache-file part is **false of the current code** (`C04_cache_fails`, a recorded finding).
+exclusion).  The cache-file part holds **in full** too since the repair `fix: replace the cache files atomically when
+saving them to disk` (/repo 998b465): `C04_cache_full`, a theorem about the model at the facts regenerated from the
+compiled `pkg/cache` (`CacheDir.tree`); the model of the code before the repair is refuted as before
+(`C04_cache_nonatomic_fails`).
 -/
 namespace Spec.C04
 open Wire Chain Producer
@@ -215,42 +220,89 @@ theorem C04_old_witness_recovers : ∃ σ σ', runOps wCfg (initSt wCfg) wOps = 
       · show σ'.node.lastState.lastTime ≤ 500
         omega
 
-/-! ## 4. cache files -/
+/-! ## 4. cache files
 
-/-- a cache file as `loadMapGob` sees it: decodes, does not exist (treated as empty), or was cut short by a crash
-while `SaveToDisk` was rewriting it in place -/
-inductive CacheFile | ok | absent | truncated
-  deriving DecidableEq, Repr
+`Model/CacheDir.lean`: at a clean stop `SaveCache` rewrites eight gob files one after the other; a crash can fall
+before, inside or after the save of each; `NewManager` fails when `LoadCache` fails.  What a crash *inside* the save
+of a file leaves at its path depends on how `saveMapGob` replaces the file, and that is a **regenerated fact**
+(`Gen.C04.cacheSaveAtomic`, measured on every run: the real `SaveToDisk` run over an existing directory gives every
+path a new inode and leaves the old inodes — held open and hard-linked — byte for byte alone), as is the fact that
+`LoadFromDisk` does not look at left-over `.tmp` files (`Gen.C04.cacheLoadIgnoresTmp`).  `CacheDir.tree` is the pair
+of them; the compiled driver interprets `restart cut=…` with it. -/
 
-inductive StartErr' | store (e : StartErr) | loadCache
-  deriving DecidableEq, Repr
+open CacheDir
 
-/-- `NewManager` with its cache files (`block/manager.go:413-416`: any `LoadCache` error is fatal) -/
-def startWithCaches (c : Cfg) (d : Store) (files : List CacheFile) : Except StartErr' (Node × List SW) :=
-  match start c d with
-  | .error e => .error (.store e)
-  | .ok r => if files.any (· == .truncated) then .error .loadCache else .ok r
+/-- full claim, for a model of `pkg/cache` with the facts `f`: from every durable image of the store satisfying the
+disk invariant (so: after every history and every crash point, `C04_cache_after_any_history`) and **every** crash
+image of the cache directory — any older versions, the crash anywhere in the save of each file — the restart
+succeeds, and is the restart `start` of parts 1–3 -/
+def C04_cache_full_for (f : Facts) : Prop :=
+  ∀ (c : Cfg) (d : Store) (olds : List OldFile) (pts : List SavePoint), DInv c d →
+    ∃ n ws, restartAfterSaveCrash f c d olds pts = .ok (n, ws) ∧ start c d = .ok (n, ws) ∧ Inv c n
 
-/-- full claim: restart succeeds for every combination of cache-file states -/
-def C04_cache_full : Prop :=
-  ∀ (c : Cfg) (files : List CacheFile), 1 ≤ c.initialHeight → ∃ r, startWithCaches c {} files = .ok r
-
-/-- **false of the current code**: one truncated file and the node cannot start any more
-(`C04/restart-fails/cache-file-truncated` on the real node) -/
-theorem C04_cache_fails : ¬ C04_cache_full := by
-  intro h
-  obtain ⟨r, hr⟩ := h wCfg [.ok, .truncated] (by decide)
-  simp [startWithCaches, start_empty] at hr
-
-/-- partial: with no truncated file, restart is exactly `start` (so (b) applies) -/
-theorem C04_cache_partial {c : Cfg} {d : Store} (hd : DInv c d) (files : List CacheFile)
-    (hf : ∀ f ∈ files, f ≠ .truncated) :
-    ∃ n ws, startWithCaches c d files = .ok (n, ws) ∧ start c d = .ok (n, ws) ∧ Inv c n := by
+/-- partial, for any facts: when files are rewritten in place the crash must not fall inside a write
+(`during false`); when they are replaced atomically nothing is excluded -/
+theorem C04_cache_partial {f : Facts} {c : Cfg} {d : Store} (hd : DInv c d) (olds : List OldFile)
+    (pts : List SavePoint) (ht : f.loadIgnoresTmp = true)
+    (hp : f.saveAtomic = false → ∀ p ∈ pts, p ≠ .during false) :
+    ∃ n ws, restartAfterSaveCrash f c d olds pts = .ok (n, ws) ∧ start c d = .ok (n, ws) ∧ Inv c n := by
   obtain ⟨n, ws, hst, hi, _⟩ := start_of_dinv hd
-  refine ⟨n, ws, ?_, hst, hi.toInv⟩
-  have : files.any (· == .truncated) = false := by
-    rw [List.any_eq_false]; intro f hf'; simpa using hf f hf'
-  simp [startWithCaches, hst, this]
+  exact ⟨n, ws, startWithCaches_of_loadOK (loadOK_crashImages ht olds pts hp) hst, hst, hi.toInv⟩
+
+/-- **the obligation tying the theorem to the tree**: the compiled `pkg/cache` replaces the cache files atomically and
+loads beside left-over `.tmp` files.  `Gen/C04.lean` is regenerated on every run; on a tree that rewrites the files
+in place this `decide` fails, the check goes to its search and the monitor `C04/restart-fails/cache-file-truncated`
+produces the failing input. -/
+theorem C04_tree_saves_atomically : CacheDir.tree = { saveAtomic := true, loadIgnoresTmp := true } := by decide
+
+/-- the files the real `SaveCache` leaves are the eight files of the model, in its order -/
+theorem C04_cache_file_names : Gen.C04.cacheFileNames = CacheDir.fileNames := by decide
+
+/-- **C04, cache files, in full — a theorem of the current tree**: wherever the crash fell while the caches were
+being saved, the node restarts. -/
+theorem C04_cache_full : C04_cache_full_for CacheDir.tree := by
+  rw [C04_tree_saves_atomically]
+  intro c d olds pts hd
+  exact C04_cache_partial hd olds pts rfl (fun h => by cases h)
+
+/-- … and what the crash leaves at every path is the complete old version or the complete new one (never a cut-off
+file), possibly with a `.tmp` file beside it -/
+theorem C04_cache_image_old_or_new (old : OldFile) (p : SavePoint) :
+    (crashImage CacheDir.tree old p).target = old.file ∨ (crashImage CacheDir.tree old p).target = .ok :=
+  crashImage_atomic_old_or_new (by rw [C04_tree_saves_atomically]) old p
+
+/-- together with part 2: after **every** history of steps and crashes, a crash after any number `k` of the writes of
+the last operation, with any crash image of the cache directory: the restart succeeds -/
+theorem C04_cache_after_any_history (c : Cfg) (hpos : 1 ≤ c.initialHeight) (ops : List Op) (k : Nat)
+    (olds : List OldFile) (pts : List SavePoint) :
+    ∃ σ n ws, runOps c (initSt c) ops = .ok σ ∧
+      restartAfterSaveCrash CacheDir.tree c (σ.base.applyPrefix k σ.ws) olds pts = .ok (n, ws) ∧ Inv c n := by
+  obtain ⟨σ, hr, hg, _⟩ := runOps_good (good_init c hpos) ops
+  obtain ⟨n, ws, h1, _, h3⟩ := C04_cache_full c _ olds pts (hg.cuts k)
+  exact ⟨σ, n, ws, hr, h1, h3⟩
+
+/-- the code before the repair (`os.Create` on the target, encode in place): **the full claim is false** — one file
+cut short inside its write and the node cannot start any more.  Kept so that the reason stays visible: this is the
+model the driver runs, and the input the monitor `C04/restart-fails/cache-file-truncated` finds, on a tree whose
+`Gen.C04.cacheSaveAtomic` is `false`. -/
+theorem C04_cache_nonatomic_fails : ¬ C04_cache_full_for { saveAtomic := false, loadIgnoresTmp := true } := by
+  intro h
+  obtain ⟨n, ws, hr, _⟩ := h wCfg {} [.complete, .complete] [.after, .during false] (dinv_empty wCfg (by decide))
+  simp [restartAfterSaveCrash, startWithCaches, start_empty, crashImages, crashImage, loadOK] at hr
+
+/-- the same input on the current tree: the second file keeps its old version, a `.tmp` file is left, the node starts -/
+example : crashImages CacheDir.tree [.complete, .absent, .complete] [.after, .during false, .before]
+    = [{ target := .ok }, { target := .absent, tmp := true }, { target := .ok }] ∧
+    crashImages { saveAtomic := false, loadIgnoresTmp := true } [.complete, .absent, .complete] [.after, .during false, .before]
+    = [{ target := .ok }, { target := .truncated }, { target := .ok }] := by decide
+
+/-- the sequential crash images the driver builds from `restart cut=<file 2 of 4>`: saved, saved, cut, untouched -/
+example : seqPoints 4 2 false = [.after, .after, .during false, .before] := by decide
+
+/-- a `LoadFromDisk` that read the left-over `.tmp` files would fail on the current crash images (why
+`cacheLoadIgnoresTmp` is part of the obligation) -/
+example : loadOK { saveAtomic := true, loadIgnoresTmp := false }
+    (crashImages { saveAtomic := true, loadIgnoresTmp := false } [.complete] [.during false]) = false := by decide
 
 /-! ## non-vacuity -/
 
